@@ -265,6 +265,62 @@ def symLt (env : Env) (x y : Val) : Except Err Bool := lt env (canon env x) (can
 /-- `pg.gt`. -/
 def symGt (env : Env) (x y : Val) : Except Err Bool := symLt env y x
 
+/-! ### The literal shape of `base.lt` (keys sorted when the dict branch is reached)
+
+`symLt` sorts the keys of *all* dicts first and then compares by position. The code sorts the keys
+of the two dicts at hand when it reaches the dict branch (`lkeys = _sorted_keys(left)`), leaves the
+values as they are and recurses. `ltF` transcribes that, with the recursion depth as a bound (it
+answers `RecursionError` when the bound is exhausted — never, for the bound of `ltDirect`).
+PgProofs/CompareDirect.lean proves `ltDirect = symLt` on well-formed values. -/
+
+def ltListBy (f : Val → Val → Except Err Bool) : List Val → List Val → Except Err Bool
+  | [], [] => .ok false
+  | [], _ :: _ => .ok true
+  | _ :: _, [] => .ok false
+  | x :: xs, y :: ys => if eq x y then ltListBy f xs ys else f x y
+
+def ltItemsBy (env : Env) (f : Val → Val → Except Err Bool) :
+    List (Atom × Val) → List (Atom × Val) → Except Err Bool
+  | [], [] => .ok false
+  | [], _ :: _ => .ok true
+  | _ :: _, [] => .ok false
+  | (k, v) :: xs, (k', w) :: ys =>
+      if atomEq k k' then (if eq v w then ltItemsBy env f xs ys else f v w)
+      else atomLt env k k'
+
+def ltF (env : Env) : Nat → Val → Val → Except Err Bool
+  | 0, _, _ => .error .recursionError
+  | n + 1, x, y =>
+    match rankCmp env x y with
+    | some r => .ok r
+    | none =>
+      match x, y with
+      | .atom a, .atom b => atomLtSame a b
+      | .list _ xs, .list _ ys => ltListBy (ltF env n) xs ys
+      | .tuple xs, .tuple ys => pySeqLt xs ys
+      | .dict _ xs, .dict _ ys => ltItemsBy env (ltF env n) (sortItems env xs) (sortItems env ys)
+      | .obj c xs, .obj d ys =>
+          if c = d then ltItemsBy env (ltF env n) xs ys else .error .recursionError
+      | _, _ => .error .typeError
+
+mutual
+  def depth : Val → Nat
+    | .atom _ => 0
+    | .list _ xs => depthList xs + 1
+    | .tuple xs => depthList xs + 1
+    | .dict _ kvs => depthItems kvs + 1
+    | .obj _ kvs => depthItems kvs + 1
+  def depthList : List Val → Nat
+    | [] => 0
+    | x :: xs => max (depth x) (depthList xs)
+  def depthItems : List (Atom × Val) → Nat
+    | [] => 0
+    | (_, v) :: rest => max (depth v) (depthItems rest)
+end
+
+/-- `pg.lt`, transcribed literally (the bound is never reached). -/
+def ltDirect (env : Env) (x y : Val) : Except Err Bool := ltF env (depth x + 1) x y
+
 /-! ### Hashing -/
 
 inductive ClsTag | list | dict | user (c : Nat)
@@ -350,5 +406,19 @@ def symHash (H : PyHash) (x : Val) : Except Err Int :=
   match hashTerm x with
   | .ok t => .ok (evalHash H t)
   | .error e => .error e
+
+/-! ### Operators of classes that opt into symbolic comparison
+
+`Object.__eq__` / `__ne__` / `__hash__` (object.py) of an instance of a class with
+`use_symbolic_comparison = True`: `return self.sym_eq(other)`, `not self.__eq__(other)`,
+`return self.sym_hash()` — the very methods `pg.eq` / `pg.ne` / `pg.hash` dispatch to when the
+left operand is an object. -/
+
+/-- `x == y` for `x = cls(**kvs)` of an opted-in class. -/
+def opEq (c : Nat) (kvs : List (Atom × Val)) (y : Val) : Bool := eq (.obj c kvs) y
+/-- `x != y`. -/
+def opNe (c : Nat) (kvs : List (Atom × Val)) (y : Val) : Bool := !opEq c kvs y
+/-- `hash(x)`. -/
+def opHash (H : PyHash) (c : Nat) (kvs : List (Atom × Val)) : Except Err Int := symHash H (.obj c kvs)
 
 end Pg.C06
